@@ -28,6 +28,7 @@ import (
 	"net/http/httptest"
 	"net/url"
 	"regexp"
+	"runtime"
 	"sort"
 	"strconv"
 	"strings"
@@ -74,7 +75,82 @@ func init() {
 		}
 		return parse.NewResult(probe{true}, msg.Scope)
 	})
+	parse.Register("c13.Watch", func(b []byte) (*parse.Result, error) {
+		var msg struct {
+			ID    int                  `json:"id"`
+			Scope []parse.ModifierType `json:"scope"`
+		}
+		if err := json.Unmarshal(b, &msg); err != nil {
+			return nil, err
+		}
+		w := &watch{id: msg.ID}
+		watchReg.mu.Lock()
+		if watchReg.m != nil {
+			watchReg.m[msg.ID] = append(watchReg.m[msg.ID], w)
+		}
+		watchReg.mu.Unlock()
+		return parse.NewResult(w, msg.Scope)
+	})
 }
+
+// watch is a verifier written the way a third party would write one against the public
+// verify.RequestVerifier / verify.ResponseVerifier interfaces: it has no lock of its own and relies
+// on its parent (martianhttp.Modifier, fifo.Group) never to reset it while one of its evaluations
+// (Modify*, Verify*) is in flight. It never records a failure, so in reports it is a no-op; what it
+// observes is whether a reset overlapped an evaluation. This is the non-race-detector witness of the
+// exclusive lock that the reset walk holds above a verifier.
+type watch struct {
+	id       int
+	side     [2]watchSide // request, response: fifo.Group locks its two sides separately, so does the probe
+	overlaps atomic.Int32
+	evals    atomic.Int32
+	resets   atomic.Int32
+}
+
+type watchSide struct{ inflight, resetting atomic.Int32 }
+
+var watchSlow atomic.Bool // set during concurrent phases: evaluations take long enough to be overlapped
+
+var watchReg struct {
+	mu sync.Mutex
+	m  map[int][]*watch
+}
+
+func (w *watch) eval(s int) {
+	w.side[s].inflight.Add(1)
+	w.evals.Add(1)
+	if w.side[s].resetting.Load() != 0 {
+		w.overlaps.Add(1)
+	}
+	if watchSlow.Load() {
+		runtime.Gosched()
+		time.Sleep(10 * time.Microsecond)
+	}
+	if w.side[s].resetting.Load() != 0 {
+		w.overlaps.Add(1)
+	}
+	w.side[s].inflight.Add(-1)
+}
+func (w *watch) doReset(s int) {
+	w.side[s].resetting.Add(1)
+	w.resets.Add(1)
+	if w.side[s].inflight.Load() != 0 {
+		w.overlaps.Add(1)
+	}
+	if watchSlow.Load() {
+		runtime.Gosched()
+	}
+	if w.side[s].inflight.Load() != 0 {
+		w.overlaps.Add(1)
+	}
+	w.side[s].resetting.Add(-1)
+}
+func (w *watch) ModifyRequest(*http.Request) error   { w.eval(0); return nil }
+func (w *watch) ModifyResponse(*http.Response) error { w.eval(1); return nil }
+func (w *watch) VerifyRequests() error               { w.eval(0); return nil }
+func (w *watch) VerifyResponses() error              { w.eval(1); return nil }
+func (w *watch) ResetRequestVerifications()          { w.doReset(0) }
+func (w *watch) ResetResponseVerifications()         { w.doReset(1) }
 
 // probe is a modifier that is no verifier; with fail set it returns an error (halts a
 // non-aggregating fifo.Group).
@@ -135,7 +211,7 @@ func unhexS(t string) (string, bool) {
 	return string(b), ok
 }
 
-var leafArity = map[string]int{"status": 1, "header": 2, "method": 1, "url": 4, "qs": 2, "failure": 1, "ping": 4, "nop": 0, "fail": 0}
+var leafArity = map[string]int{"status": 1, "header": 2, "method": 1, "url": 4, "qs": 2, "failure": 1, "ping": 4, "nop": 0, "fail": 0, "watch": 1}
 var condArity = map[string]int{"header": 2, "url": 4, "method": 1}
 
 func takeArgs(toks []string, n int, raw bool) ([]string, []string, bool) {
@@ -177,11 +253,11 @@ func parseNode(toks []string, depth int) (*node, []string, bool) {
 			return nil, nil, false
 		}
 		var ok2 bool
-		n.args, toks, ok2 = takeArgs(toks[1:], ar, n.leaf == "status")
+		n.args, toks, ok2 = takeArgs(toks[1:], ar, n.leaf == "status" || n.leaf == "watch")
 		if !ok2 {
 			return nil, nil, false
 		}
-		if n.leaf == "status" {
+		if n.leaf == "status" || n.leaf == "watch" {
 			if _, err := strconv.ParseUint(n.args[0], 10, 31); err != nil {
 				return nil, nil, false
 			}
@@ -244,7 +320,7 @@ func (n *node) tokens() []string {
 	case "L":
 		out = append(out, n.leaf)
 		for _, a := range n.args {
-			if n.leaf == "status" {
+			if n.leaf == "status" || n.leaf == "watch" {
 				out = append(out, a)
 			} else {
 				out = append(out, core.HexS(a))
@@ -320,6 +396,9 @@ func (n *node) json() interface{} {
 			name = "c13.Nop"
 		case "fail":
 			name = "c13.Fail"
+		case "watch":
+			name = "c13.Watch"
+			body["id"], _ = strconv.Atoi(n.args[0])
 		}
 	case "G":
 		name = "fifo.Group"
@@ -458,6 +537,10 @@ type impl struct {
 	resmod martian.ResponseModifier
 	vh     *verify.Handler
 	rh     *verify.ResetHandler
+	// watch probes of the installed tree that sit below an exclusive reset lock (martianhttp.Modifier
+	// at the root, or a fifo.Group above them), by id
+	guarded map[int][]*watch
+	above   map[int]string
 }
 
 func newImpl() *impl {
@@ -472,6 +555,54 @@ func newImpl() *impl {
 
 // install returns nil when the configuration was rejected (the previous tree stays).
 func install(wiring string, n *node) *impl {
+	watchReg.mu.Lock()
+	watchReg.m = map[int][]*watch{}
+	watchReg.mu.Unlock()
+	i := install1(wiring, n)
+	watchReg.mu.Lock()
+	reg := watchReg.m
+	watchReg.m = nil
+	watchReg.mu.Unlock()
+	if i == nil {
+		return nil
+	}
+	i.guarded, i.above = map[int][]*watch{}, map[int]string{}
+	var walk func(n *node, lock string)
+	walk = func(n *node, lock string) {
+		switch {
+		case n.typ == "G" && lock == "":
+			lock = "fifo.Group"
+		case n.typ == "L" && n.leaf == "watch" && lock != "":
+			id, _ := strconv.Atoi(n.args[0])
+			i.guarded[id], i.above[id] = reg[id], lock
+		}
+		for _, k := range n.kids {
+			walk(k, lock)
+		}
+	}
+	walk(n, map[string]string{"m": "martianhttp.Modifier", "d": ""}[wiring])
+	return i
+}
+
+// overlaps reports a guarded watch probe that saw a reset overlap one of its evaluations.
+func (i *impl) overlaps() string {
+	var ids []int
+	for id := range i.guarded {
+		ids = append(ids, id)
+	}
+	sort.Ints(ids)
+	for _, id := range ids {
+		for _, w := range i.guarded[id] {
+			if n := w.overlaps.Load(); n > 0 {
+				return fmt.Sprintf("a reset overlapped an evaluation (Modify*/Verify*) of the verifier probe watch#%d %d time(s) although the probe sits below %s, whose exclusive lock must keep a reset from running concurrently with traffic and queries (%d evaluations, %d resets)",
+					id, n, i.above[id], w.evals.Load(), w.resets.Load())
+			}
+		}
+	}
+	return ""
+}
+
+func install1(wiring string, n *node) *impl {
 	b, _ := json.Marshal(n.json())
 	if wiring == "d" {
 		r, err := parse.FromJSON(b)
@@ -577,7 +708,7 @@ func implements(n *node) (bool, bool) {
 	switch n.leaf {
 	case "status":
 		return false, true
-	case "header", "nop", "fail":
+	case "header", "nop", "fail", "watch":
 		return true, true
 	}
 	return true, false
@@ -739,7 +870,7 @@ func evaluate(o *onode, m *msg, req bool, hits *[]evalHit) bool {
 	switch o.n.typ {
 	case "L":
 		switch o.n.leaf {
-		case "nop":
+		case "nop", "watch":
 			return false
 		case "fail":
 			return true
@@ -1146,6 +1277,8 @@ func (e *ex) concurrent(seed uint64, withResets bool) core.Result {
 	var started, done [concG]atomic.Int32
 	var wg sync.WaitGroup
 	im := e.im
+	watchSlow.Store(true)
+	defer watchSlow.Store(false)
 	for g := 0; g < concG; g++ {
 		wg.Add(1)
 		go func(g int) {
@@ -1248,6 +1381,15 @@ func (e *ex) concurrent(seed uint64, withResets bool) core.Result {
 	wg.Wait()
 	core.Stats["conc:queries-during-traffic"] += queries
 	core.Stats["conc:resets-during-traffic"] += resets
+	if len(im.guarded) > 0 {
+		core.Count("conc:guarded-watch-probes")
+		if resets > 0 {
+			core.Count("conc:guarded-watch-probes-with-resets")
+		}
+	}
+	if f := im.overlaps(); f != "" {
+		return core.Result{Impl: "conc", Fail: f, Sig: "c13:reset-overlaps-evaluation"}
+	}
 	full := snap(&done)
 	msgs, problem := im.query()
 	if problem != "" {
